@@ -300,9 +300,12 @@ Definition lines_cross_nonsimple_pts (l1 l2 : seq) : list hpt :=
                      | EBad q => [q]
                      | ETouch p => if is_end p a && is_end p b && negb (closed a) && negb (closed b) then [] else [hp p]
                      end) (cross_events a b).
+(* every line against itself and against the other lines (told apart by value; a line with at least one segment that
+   occurs twice overlaps its copy) *)
 Definition lines_nonsimple_pts (ls : list seq) : list hpt :=
-  flat_map line_nonsimple_pts ls
-  ++ flat_map (fun ab => lines_cross_nonsimple_pts (fst ab) (snd ab)) (pairs ls).
+  flat_map (fun l => line_nonsimple_pts l
+                     ++ flat_map (lines_cross_nonsimple_pts l) (others l ls)
+                     ++ (if is_dup l ls && Nat.leb 2 (length (dedup l)) then map hp l else [])) ls.
 Fixpoint dup_pts (l : list pt) : list pt :=
   match l with [] => [] | a :: t => if mem_pt a t then a :: dup_pts t else dup_pts t end.
 Fixpoint nonsimple_pts (g : geom) : list hpt :=
